@@ -86,6 +86,7 @@ def instantiate(E, sc):
         v = E.new_var(mask, 'b%d' % (len(sc.prefix) + i)); I.symvars.append(v)
         I.buf.append(IntV(8, sym.var_node(v)))
     I.buf += [IntV(8, b) for b in sc.suffix]
+    I.cpu = install_cpu(E) if sc.variant.startswith('x86-rt') or getattr(sc, 'with_cpu', False) else None
     I.flagvars = {}; I.flags = []
     for i, f in enumerate(sc.flags):
         if f == 'sym':
@@ -112,6 +113,35 @@ def make_cells(E, sc, tag='old'):
     if sc.cells == 'uninit' or sc.api in ('uninit', 'cfg_uninit'):
         return [UNINIT for _ in range(sc.cap)]
     return [[Ref([f'{tag}name{i}'], (0,), 4, f'{tag}{i}'), Ref([f'{tag}val{i}'], (0,), 8, f'{tag}{i}')] for i in range(sc.cap)]
+
+
+def install_cpu(E):
+    """environment for the runtime dispatcher: CPU features are two arbitrary booleans fixed for the process; the cache cell
+    holds an arbitrary element of the invariant set {0, d}. Obligations are recorded in E.cpu."""
+    cpu = {'avx2': E.new_flag('cpu_avx2'), 'sse42': E.new_flag('cpu_sse42'), 'cached': E.new_flag('cell_already_set'), 'stores': [], 'bad': []}
+    E.cpu = cpu
+
+    def feature(path):
+        if 'avx2' in path: return cpu['avx2']
+        if 'sse4.2' in path or 'sse42' in path or 'sse4_2' in path: return cpu['sse42']
+        raise Unsupported('cpu feature ' + path)
+
+    def d_value():
+        a = E.branch_bool(cpu['avx2'])
+        if a: return 1
+        return 2 if E.branch_bool(cpu['sse42']) else 3
+
+    def load(a):
+        if E.branch_bool(cpu['cached']): return IntV(8, d_value())
+        return IntV(8, 0)
+
+    def store(a):
+        v = a[1]
+        cpu['stores'].append(v)
+        if not v.conc() or v.v != d_value(): cpu['bad'].append(f'RUNTIME_FEATURE.store({v}) differs from the detected feature')
+    E.hooks['feature'] = feature; E.hooks['atomic_load'] = load; E.hooks['atomic_store'] = store
+    return cpu
+
 
 
 class Obs:
